@@ -131,6 +131,7 @@ func removeLocationsFromSourceCodeInfo(
 			// where two field options share the same parent.
 			// Therefore, do not remove the parent path yet.
 			indices[i] = struct{}{}
+			fieldOptionsPaths.registerRemovedDescendant(path)
 			continue
 		}
 		return fmt.Errorf("path %v is neither a file option path nor a field option path", location.Path)
